@@ -88,8 +88,11 @@ package totp2fa
 //@   ensures[C13] owner_only: each Store.Save(?s) -> _ =>
 //@       ite(ctxuser(r) != nil, s == ctxuser(r), before Store.Load(?p) -> (?u, ?le) :: le == nil && u == s &&
 //@           p == ite(ctxpid(r) != nil, asstring(ctxpid(r)), sess(r, "uid")))
-//@   ensures[C13] authorisation_spent: each Respond(_, PageTOTPConfirmSuccess, _) =>
-//@       (before Sess.Del(Session2FAAuthed)) && (before Sess.Del(SessionTOTPSecret)) && (before Store.Save(_) -> ?e :: e == nil)
+//@   -- a completed (saved) enrolment spends the e-mail authorisation and the parked secret on
+//@   -- every path, whatever the after-event handlers answer
+//@   ensures[C13] authorisation_spent: each Store.Save(_) -> ?e => (e == nil && !panics) ==>
+//@       (after Sess.Del(Session2FAAuthed) && after Sess.Del(SessionTOTPSecret) &&
+//@        (each Fire("After", _, _, _, _) => before Sess.Del(Session2FAAuthed) && before Sess.Del(SessionTOTPSecret)))
 //@   ensures[C13] never_logs_in: !emits Sess.Put(_, _)
 //@   ensures[C18] no_panic: !panics
 //@   ensures[C18] save_error_outcome: each Store.Save(_) -> ?e => e != nil ==> (result == e && !emits Respond(_, _, _) && !emits Sess.Del(_))
